@@ -17,6 +17,13 @@ step), together with next_obs / done of the last summed step; the 1-step record 
 is the raw transition of the same (environment, step); both storages hold exactly the most recent
 records; sampling both with the same indices (through `Sampler`, as the training loop does)
 returns pairs that describe the same (obs, action).
+
+Train-loop suite: the REAL `train_off_policy` is run with a tiny RainbowDQN (population 1-2) on a
+scripted vector environment whose observation is (env id, call counter), with small n-step and
+main (uniform / prioritised) buffers that wrap early.  `n_step_memory.add` is recorded (the stream)
+and every `agent.learn(experiences, n_experiences)` call is inspected row by row: same (obs, action)
+in row i of both batches, 1-step row = raw stream transition, n-step row = legal fusion from its
+start; the final storages are compared with the Lean model fed with the recorded stream.
 """
 from __future__ import annotations
 
@@ -464,6 +471,322 @@ def report(chk: Check, case, case_seed: int, diff, problems, impl, model) -> Non
                       replay, no_input=True)
 
 
+# ----------------------------------------------------------------------------- train-loop suite
+# The suites above drive the two buffers themselves.  This one runs the REAL `train_off_policy`
+# with a tiny RainbowDQN on a scripted vector environment whose observation is (env id, call
+# counter) and looks at what the learner is handed: for every `agent.learn(experiences,
+# n_experiences)` call, row i of both batches must describe the same (obs, action), the 1-step row
+# must be the raw transition and the n-step row a legal fusion of what followed it in the stream
+# that `n_step_memory.add` received.
+
+_LOOP_ENV = {}
+
+
+def _loop_env_class():
+    if "cls" not in _LOOP_ENV:
+        import gymnasium as gym
+        from gymnasium import spaces
+
+        class ProvenanceEnv(gym.Env):
+            """every reset/step call produces a fresh observation [env id, call counter];
+            rewards are small integers, episodes have a fixed length"""
+
+            def __init__(self, env_id: int, ep_len: int):
+                self.observation_space = spaces.Box(-1e6, 1e6, (2,), np.float32)
+                self.action_space = spaces.Discrete(2)
+                self.env_id, self.ep_len, self.c, self.t = env_id, ep_len, 0, 0
+
+            def _obs(self):
+                return np.array([self.env_id, self.c], dtype=np.float32)
+
+            def reset(self, seed=None, options=None):
+                self.c += 1
+                self.t = 0
+                return self._obs(), {}
+
+            def step(self, action):
+                self.c += 1
+                self.t += 1
+                return self._obs(), float((self.c * 5 + self.env_id) % 7 - 3), self.t >= self.ep_len, False, {}
+
+        _LOOP_ENV["cls"] = ProvenanceEnv
+    return _LOOP_ENV["cls"]
+
+
+def _obs_code(x) -> int | None:
+    """[env id, counter] -> 4 * counter + env id + 1 (a Nat for the model's wire format)"""
+    v = x.reshape(-1).to(torch.float64).tolist()
+    if len(v) != 2 or v[0] != int(v[0]) or v[1] != int(v[1]) or not (0 <= v[0] < 4) or v[1] < 0:
+        return None
+    return 4 * int(v[1]) + int(v[0]) + 1
+
+
+def _loop_cell(row):
+    """(obs code, action, reward, next_obs code, done) of one transition, or None"""
+    try:
+        o, x = _obs_code(row["obs"]), _obs_code(row["next_obs"])
+        a = row["action"].reshape(-1).to(torch.float64).tolist()
+        r = row["reward"].reshape(-1).to(torch.float64).tolist()
+        d = row["done"].reshape(-1).to(torch.float64).tolist()
+    except Exception:
+        return None
+    if o is None or x is None or len(a) != 1 or len(r) != 1 or len(d) != 1 or a[0] != int(a[0]) or d[0] not in (0.0, 1.0):
+        return None
+    return (o, int(a[0]), Fraction(r[0]), x, int(d[0]))
+
+
+def _cell_str(c) -> str:
+    return "MIXED" if c is None else f"{c[0]},{c[1]},{frac_str(c[2])},{c[3]},{c[4]}"
+
+
+def _legal_fusion(stream, t: int, e: int, n: int, g: Fraction, rec) -> bool:
+    """is `rec` the discounted return of k steps from stream position (t, e) for a legal k?"""
+    seen, m = len(stream), len(stream[t])
+    for k in range(1, n + 1):
+        if t + k - 1 >= seen:
+            break
+        if any(stream[t + i][e][4] for i in range(k - 1)):
+            break
+        last = stream[t + k - 1]
+        if k < n and not any(c[4] for c in last):
+            continue
+        s = sum(g ** i * stream[t + i][e][2] for i in range(k))
+        if rec[2] == s and rec[3] == last[e][3] and rec[4] == last[e][4]:
+            return True
+    return False
+
+
+class _LoopTimeout(Exception):
+    pass
+
+
+def loop_config(rng: random.Random, per: bool, tier: str) -> dict:
+    m = 2 if tier == "quick" or rng.random() < 0.7 else 3
+    batch = rng.choice([3, 4])
+    return {"kind": "train-loop", "per": per, "envs": m, "n": rng.choice([2, 3, 3, 4]),
+            "cap": rng.choice([c for c in (6, 7, 8, 9, 10) if c >= max(batch, m)]), "batch": batch,
+            "learn_step": rng.choice([1, 1, 2, 4]), "pop": rng.choice([1, 1, 2]),
+            "max_steps": rng.choice([120, 160, 200]), "evo_steps": rng.choice([40, 60]),
+            "ep_lens": [rng.randint(2, 9) for _ in range(m)], "seed": rng.randrange(1 << 30)}
+
+
+def run_loop(cfg: dict, fault: str | None = None, guard_s: float = 90.0) -> dict:
+    """run the real train_off_policy; returns stream, learn-call statistics, problems, final storages"""
+    import contextlib
+    import io
+    import signal
+
+    import gymnasium as gym
+    from agilerl.algorithms.dqn_rainbow import RainbowDQN
+    from agilerl.components.replay_buffer import (MultiStepReplayBuffer, PrioritizedReplayBuffer,
+                                                  ReplayBuffer)
+    from agilerl.training.train_off_policy import train_off_policy
+
+    seed, m, n, cap, per = cfg["seed"], cfg["envs"], cfg["n"], cfg["cap"], cfg["per"]
+    g = Fraction(1, 2)
+    torch.manual_seed(seed)
+    np.random.seed(seed % (1 << 31))
+    random.seed(seed)
+    Env = _loop_env_class()
+    env = gym.vector.SyncVectorEnv([(lambda i=i: Env(i, cfg["ep_lens"][i])) for i in range(m)])
+    pop = [RainbowDQN(env.single_observation_space, env.single_action_space, index=i,
+                      net_config={"encoder_config": {"hidden_size": [16]}, "head_config": {"hidden_size": [16]}},
+                      batch_size=cfg["batch"], learn_step=cfg["learn_step"], n_step=n, gamma=0.5, num_atoms=5,
+                      v_min=-6.0, v_max=6.0, combined_reward=True) for i in range(cfg["pop"])]
+    mb = PrioritizedReplayBuffer(cap, alpha=0.6) if per else ReplayBuffer(cap)
+    nb = MultiStepReplayBuffer(cap, n_step=n, gamma=float(g))
+
+    stream, where = [], {}                 # rows handed to n_step_memory.add; obs code -> (t, e)
+    res = {"learn_calls": 0, "calls_after_wrap": 0, "bad_calls": 0, "problems": [], "first_bad": []}
+
+    nb_add = nb.add
+
+    def recording_add(data):
+        row = [_loop_cell(data[e]) for e in range(data.shape[0])]
+        t = len(stream)
+        stream.append(row)
+        for e, c in enumerate(row):
+            if c is not None:
+                where[c[0]] = (t, e)
+        return nb_add(data)
+    nb.add = recording_add
+
+    if fault == "lagging-main-buffer":      # seeded fault: the main buffer is one write behind
+        mb_add, pending = mb.add, []
+
+        def lagging_add(data):
+            pending.append(data.clone())
+            if len(pending) > 1:
+                mb_add(pending.pop(0))
+        mb.add = lagging_add
+
+    fields = ("obs", "action", "reward", "next_obs", "done")
+
+    def note(call: int, msg: str, detail: dict):
+        if msg not in res["problems"]:
+            res["problems"].append(msg)
+        if len(res["first_bad"]) < 6:
+            res["first_bad"].append(dict(detail, learn_call=call, what=msg))
+
+    def check_batches(experiences, n_experiences):
+        res["learn_calls"] += 1
+        call = res["learn_calls"]
+        wrapped = nb.counter > cap
+        res["calls_after_wrap"] += wrapped
+        if n_experiences is None:
+            note(call, "agent.learn was called without an n-step batch although n_step=True", {})
+            res["bad_calls"] += 1
+            return
+        k = experiences["obs"].shape[0]
+        idxs = experiences["idxs"].reshape(-1).tolist() if "idxs" in experiences.keys() else [None] * k
+        bad = False
+        for i in range(k):
+            try:
+                one = _loop_cell({f: experiences[f].reshape(k, -1)[i] for f in fields})
+                nst = _loop_cell({f: n_experiences[f].reshape(k, -1)[i] for f in fields})
+            except Exception as ex:
+                one = nst = None
+                note(call, f"batches handed to learn() cannot be read row by row ({type(ex).__name__})", {})
+            ctx = {"row": i, "buffer_index": idxs[i] if i < len(idxs) else None, "one_step": _cell_str(one),
+                   "n_step": _cell_str(nst), "main_buffer_counter": mb.counter, "n_step_buffer_counter": nb.counter,
+                   "after_wrap": bool(wrapped)}
+            if one is None or nst is None:
+                note(call, "a row handed to learn() does not decode to one transition", ctx)
+                bad = True
+                continue
+            if one[0] not in where or stream[where[one[0]][0]][where[one[0]][1]] != one:
+                note(call, "the 1-step row handed to learn() is not a transition of the stream", ctx)
+                bad = True
+            if (nst[0], nst[1]) != (one[0], one[1]):
+                note(call, "learn() received a 1-step row and an n-step row with different (obs, action) at the "
+                           "same batch position", ctx)
+                bad = True
+            if nst[0] not in where or not _legal_fusion(stream, *where[nst[0]], n, g, nst):
+                note(call, "the n-step row handed to learn() is not the discounted return of its own episode "
+                           "segment", ctx)
+                bad = True
+        res["bad_calls"] += bad
+
+    for agent in pop:
+        def wrapped_learn(experiences, n_experiences=None, per=False, _orig=agent.learn, **kw):
+            check_batches(experiences, n_experiences)
+            return _orig(experiences, n_experiences=n_experiences, per=per, **kw)
+        agent.learn = wrapped_learn          # instance attribute: the class is left untouched
+
+    def on_alarm(signum, frame):
+        raise _LoopTimeout()
+    threads = torch.get_num_threads()
+    torch.set_num_threads(1)                 # tiny networks: more threads only cost time
+    old = signal.signal(signal.SIGALRM, on_alarm)
+    signal.setitimer(signal.ITIMER_REAL, guard_s)
+    try:
+        with contextlib.redirect_stdout(io.StringIO()), contextlib.redirect_stderr(io.StringIO()):
+            train_off_policy(env, "ProvenanceEnv", "Rainbow DQN", pop, mb, max_steps=cfg["max_steps"],
+                             evo_steps=cfg["evo_steps"], eval_steps=3, eval_loop=1, n_step=True, per=per,
+                             n_step_memory=nb, tournament=None, mutation=None, wb=False, verbose=False)
+    except _LoopTimeout:
+        raise InfraError(f"C10 train-loop suite: train_off_policy did not finish within {guard_s:.0f} s")
+    except Exception as ex:
+        note(res["learn_calls"], f"train_off_policy raised {type(ex).__name__}: {ex}"[:300], {})
+    finally:
+        signal.setitimer(signal.ITIMER_REAL, 0)
+        signal.signal(signal.SIGALRM, old)
+        torch.set_num_threads(threads)
+        for agent in pop:
+            agent.__dict__.pop("learn", None)
+        try:
+            env.close()
+        except Exception:
+            pass
+    res["stream"] = stream
+    res["ncells"] = [_cell_str(_loop_cell(nb.storage[j])) for j in range(len(nb))] if nb.storage is not None else []
+    res["ocells"] = [_cell_str(_loop_cell(mb.storage[j])) for j in range(len(mb))] if mb.storage is not None else []
+    res["sizes"] = f"{len(nb)} {len(mb)} {len(nb.n_step_buffer)}"
+    return res
+
+
+def loop_model_ops(cfg: dict, stream) -> list[str] | None:
+    if any(c is None for row in stream for c in row):
+        return None
+    ops = [f"nstep new {cfg['n']} 1/2 {cfg['envs']} {cfg['cap']} {cfg['cap']} 1"]
+    for row in stream:
+        ops.append("nstep add " + " ".join(f"{c[0]} {c[1]} {frac_str(c[2])} {c[3]} {c[4]}" for c in row))
+    return ops + ["nstep dump", "nstep len"]
+
+
+def loop_case(chk: Check, cfg: dict, fault: str | None = None):
+    """returns (result dict, differs-from-model: bool)"""
+    private_driver(chk)
+    res = run_loop(cfg, fault)
+    ops = loop_model_ops(cfg, res["stream"])
+    if ops is None:
+        res["problems"].append("a transition handed to n_step_memory.add does not decode")
+        return res, False
+    raw = chk.driver.run(["reset"] + ops)[1:]
+    if any(x in ("bad-op", "reject") for x in raw):
+        raise InfraError("C10 train-loop suite: model refused the recorded stream")
+    model = canon_model(raw, ops)[-2:]
+    impl = [pairs_line(res["ncells"], res["ocells"]), res["sizes"]]
+    res["impl_final"], res["model_final"] = impl, model
+    return res, impl != model
+
+
+def loop_replay_obj(cfg, res) -> dict:
+    return {"case": cfg, "seed": cfg["seed"], "learn_calls": res["learn_calls"],
+            "learn_calls_after_wrap": res["calls_after_wrap"], "bad_learn_calls": res["bad_calls"],
+            "first_bad": res["first_bad"], "oracle_problems": res["problems"],
+            "final_storages_impl": res.get("impl_final"), "final_storages_model": res.get("model_final"),
+            "how": "real train_off_policy + RainbowDQN on a scripted vector env; obs code = 4*counter + env + 1; "
+                   "cells are obs,action,reward,next_obs,done; one_step / n_step are row i of the two batches "
+                   "handed to agent.learn",
+            "correspondence": "harness/c10.py (train-loop suite) vs Model/NStep.lean (fixed = true)"}
+
+
+def loop_suite(chk: Check) -> None:
+    rng = chk.rng
+    runs = 4 if chk.tier == "quick" else 16
+    ndiff = 0
+    for i in range(runs):
+        cfg = loop_config(rng, per=bool(i % 2), tier=chk.tier)
+        res, differs = loop_case(chk, cfg)
+        if res["learn_calls"] < 10 or res["calls_after_wrap"] < 5:
+            raise InfraError(f"C10 train-loop suite is blind: {res['learn_calls']} learn calls, "
+                             f"{res['calls_after_wrap']} after wrap-around for {cfg}")
+        chk.case(cfg, nontrivial=True,
+                 sample={"train_loop": {k: cfg[k] for k in ("per", "envs", "n", "cap", "batch", "learn_step", "pop")},
+                         "learn_calls": res["learn_calls"], "after_wrap": res["calls_after_wrap"],
+                         "stream_rows": len(res["stream"])},
+                 tags=["loop-per" if cfg["per"] else "loop-uniform", f"loop-learn-step-{cfg['learn_step']}",
+                       f"loop-pop-{cfg['pop']}"])
+        chk.dist["loop-learn-calls"] += res["learn_calls"]
+        chk.dist["loop-learn-calls-after-wrap"] += res["calls_after_wrap"]
+        if not res["problems"] and not differs:
+            continue
+        ndiff += differs
+        # smaller run that still shows it
+        small, sres = cfg, res
+        for cand in (dict(cfg, pop=1), dict(cfg, pop=1, max_steps=80, evo_steps=40),
+                     dict(cfg, pop=1, max_steps=40, evo_steps=40)):
+            try:
+                r2, d2 = loop_case(chk, cand)
+            except InfraError:
+                continue
+            if bool(r2["problems"]) == bool(res["problems"]) and (r2["problems"] or d2):
+                small, sres = cand, r2
+        if res["problems"]:
+            fb = (sres["first_bad"] or [{}])[0]
+            chk.violation(f"train_off_policy: {sres['problems'][0]} — {sres['bad_calls']} of {sres['learn_calls']} "
+                          f"learn() calls; first: call {fb.get('learn_call')} row {fb.get('row')} buffer index "
+                          f"{fb.get('buffer_index')}: 1-step {fb.get('one_step')} vs n-step {fb.get('n_step')}",
+                          loop_replay_obj(small, sres))
+        else:
+            chk.violation(f"train_off_policy: final storages differ from the NStep model fed with the same stream: "
+                          f"impl={sres['impl_final']} model={sres['model_final']}; every batch handed to learn() "
+                          f"was aligned and legal", loop_replay_obj(small, sres), no_input=True)
+        break                                # one replay is enough
+    chk.suite("train-loop", runs, ndiff)
+
+
 # ----------------------------------------------------------------------------- check
 def run(chk: Check) -> None:
     rng = chk.rng
@@ -473,7 +796,8 @@ def run(chk: Check) -> None:
                 "gamma in {1/2 (mostly), 1/4, 3/4, 1}, 1..4 environments (vectorised and un-vectorised call path), "
                 "capacities m..4m+3 so that both storages wrap (also in the middle of a batch), uniform or prioritised "
                 "1-step buffer; distinct = distinct case description; non-trivial = some window was cut by an "
-                "episode end or the storages wrapped")
+                "episode end or the storages wrapped; plus real train_off_policy runs (RainbowDQN, scripted provenance "
+                "env, capacity 6..10, batch 3..4, uniform and PER) whose every learn() call is inspected")
     chk.assumptions = [
         "an episode end is what the buffer is told through `done`; train_off_policy passes only `terminated`, so "
         "time-limit truncations and the `env.reset()` between two agents of the population are invisible to the "
@@ -504,6 +828,7 @@ def run(chk: Check) -> None:
         chk.notes.append(f"{nviol} failing cases in total; the first 2 were shrunk and reported")
     chk.suite("nstep-streams", len(cases), ndiff)
     chk.corr["model_lines"] += sum(len(c["steps"]) + 3 for c, _ in cases)
+    loop_suite(chk)
     if chk.tier == "thorough":
         selftest(chk)
 
@@ -558,10 +883,17 @@ def selftest(chk: Check) -> None:
         caught["returns-newest-transition"] = count()
     finally:
         rb.MultiStepReplayBuffer.add = orig_add
+    # loop level: a main buffer that is one write behind while learn() runs must be noticed
+    lrng = random.Random(777)
+    caught["train-loop:lagging-main-buffer"] = 0
+    for per in (False, True):
+        res, _ = loop_case(chk, loop_config(lrng, per=per, tier="quick"), fault="lagging-main-buffer")
+        caught["train-loop:lagging-main-buffer"] += res["bad_calls"] if any(
+            "different (obs, action)" in p for p in res["problems"]) else 0
     blind = [v for v, c in caught.items() if c == 0]
     if blind:
         raise InfraError(f"C10 self-test: seeded faults not noticed: {blind}")
-    chk.notes.append("self-test (cases flagged by the oracle out of 120): " +
+    chk.notes.append("self-test (cases flagged by the oracle out of 120; train-loop: misaligned learn() calls): " +
                      ", ".join(f"{v}={c}" for v, c in caught.items()))
 
 
@@ -570,6 +902,18 @@ def replay(chk: Check, path: str) -> int:
     c = json.loads(open(path).read())
     c = c.get("replay", c)
     case, seed = c.get("case", c), c.get("seed", 0)
+    if case.get("kind") == "train-loop":
+        res, differs = loop_case(chk, case)
+        print(json.dumps({k: v for k, v in loop_replay_obj(case, res).items() if k not in ("how", "correspondence")},
+                         indent=1, default=str))
+        if res["problems"]:
+            print(f"VIOLATION property=C10 replay={path}")
+            print(f"  -> {res['problems'][0]} ({res['bad_calls']} of {res['learn_calls']} learn() calls)"[:600])
+            return 1
+        if differs:
+            print(f"VIOLATION property=C10 replay={path} no-failing-input-found")
+            return 1
+        return 0
     diff, problems, impl, model = one_case(chk, case, seed)
     print(json.dumps({"case": case, "impl": impl, "model": model, "diff_at": diff,
                       "oracle_problems": problems}, indent=1))
